@@ -231,6 +231,10 @@ inproc_pipe_close(void *arg)
 	inproc_pipe *pipe = arg;
 	inproc_pair *pair = pipe->pair;
 
+	if (pair == NULL) {
+		// pipe creation failed before the pipe was paired
+		return;
+	}
 	for (int i = 0; i < 2; i++) {
 		inproc_queue *queue = &pair->queues[i];
 		nni_mtx_lock(&queue->lock);
@@ -377,18 +381,18 @@ inproc_accept_clients(inproc_ep *srv)
 			    ((rv = nni_pipe_alloc_listener(
 			          (void **) &spipe, srv->listener)) != 0)) {
 
+				// neither pipe refers to the pair yet, so
+				// both references are ours to drop
 				if (cpipe != NULL) {
 					nni_pipe_close(cpipe->pipe);
 					nni_pipe_rele(cpipe->pipe);
-				} else {
-					nni_refcnt_rele(&pair->ref);
 				}
 				if (spipe != NULL) {
 					nni_pipe_close(spipe->pipe);
 					nni_pipe_rele(spipe->pipe);
-				} else {
-					nni_refcnt_rele(&pair->ref);
 				}
+				nni_refcnt_rele(&pair->ref);
+				nni_refcnt_rele(&pair->ref);
 				inproc_conn_finish(caio, rv, cli, NULL);
 				inproc_conn_finish(saio, rv, srv, NULL);
 				continue;
